@@ -231,3 +231,18 @@ def edge_mdps():
 
 def has_tiny_probability(item):
     return any(p not in (0, 1) and (p < F(1, 100) or p > F(99, 100)) for row in item[2] for _, d, _ in row for _, p in d)
+
+
+def with_ns_rewards(item):
+    """Same MDP, but every stochastic (s, a) pays a reward that depends on the sampled successor:
+    the i-th listed outcome pays r - i (keeps rewards non-positive when they were)."""
+    tag, n, T, ab, init, g = item
+    T2 = []
+    for row in T:
+        new = []
+        for a, dist, rew in row:
+            if len(dist) >= 2 and not isinstance(rew, tuple):
+                rew = tuple(rew - i for i in range(len(dist)))
+            new.append((a, dist, rew))
+        T2.append(tuple(new))
+    return (tag, n, tuple(T2), ab, init, g)
